@@ -80,6 +80,35 @@ func verifB(b bool) int64 {
 	return 0
 }
 
+// VerifDataID identifies a write by its batch encoding (FNV-1a over the first
+// 512 bytes and the length); checkers compute the same value from Batch.Dump().
+func VerifDataID(data []byte) int64 {
+	h := uint64(14695981039346656037)
+	n := len(data)
+	if n > 512 {
+		n = 512
+	}
+	for _, c := range data[:n] {
+		h ^= uint64(c)
+		h *= 1099511628211
+	}
+	h ^= uint64(len(data))
+	h *= 1099511628211
+	return int64(h >> 1)
+}
+
+func verifBatchID(b *Batch) int64 { return VerifDataID(b.data) }
+
+// verifMergeID: a merged Put/Delete is identified by the encoding it will get in the leader's batch.
+func verifMergeID(m *writeMerge) int64 {
+	if m.batch != nil {
+		return VerifDataID(m.batch.data)
+	}
+	b := &Batch{}
+	b.appendRec(m.keyType, m.key, m.value)
+	return VerifDataID(b.data)
+}
+
 func verifTrace(s *session, ev string, a ...int64) {
 	if h := verifGet(); h != nil && h.Trace != nil {
 		h.Trace(verifSID(s), ev, a)
